@@ -209,8 +209,9 @@ def run(chk):
             out = vlib.run_driver(binary, ["-mode", "replay", "-in", bpath, "-out", tpath], ok_codes=(0,))
             info = json.loads(out.stdout.strip().splitlines()[-1])
             runs = assemble(tpath)
-            if len(runs) != len(bs):
+            if len(runs) != len(bs) and not info.get("aborted"):
                 raise vlib.MachineryError("replay %s: %d runs for %d behaviours" % (tag, len(runs), len(bs)))
+            bs = bs[:len(runs)]      # the driver stops after three confirmed hangs
             for b, run_ in zip(bs, runs):
                 run_[0]["behaviour"] = b
                 done = run_[0]["meta"]["steps"]
@@ -338,11 +339,18 @@ def run(chk):
         runner_stats.update(info)
         runs = assemble(tpath)
         return validate_runs(chk, "runner", runs, "runner", stats, chunk=60)
-    if not os.environ.get("C11_SKIP_RUNNER"):
-        tasks.append(("runner", runner))
+    tasks.append(("runner", runner))
+    # development / self-test aid: C11_PARTS=replay,free,echo,runner restricts the run to the binding parts
+    parts = [p for p in os.environ.get("C11_PARTS", "").split(",") if p]
+    if parts:
+        tasks = [t for t in tasks if t[0].split(":")[0] in parts]
 
     res = vlib.parallel(tasks, max_workers=5 if quick else 6)
 
+    if parts:
+        vlib.log("[partial] C11_PARTS=%s: %d runs, %d lines, %d rejected; replay %s; echo %s" % (
+            ",".join(parts), stats["runs"], stats["lines"], stats["rejected_runs"], replay_stats, echo_stats))
+        return chk.finish()
     # ---- verdicts of the model-checking part
     for c in mcs:
         r = res["mc:" + c]
